@@ -13,6 +13,11 @@ seeds = [s for s in seeds if os.path.exists('/verif/harness/checks/%s.py' % s.sp
 
 def run(sid):
     pid = sid.split('-')[0]
+    try:
+        if json.load(open(f'/verif/seeded/{sid}/meta.json')).get('neutralised_by_fix'):
+            return [(sid, pid, 'NEUTRALISED', 'no longer a breaking change on the repaired tree (see meta.json)')]
+    except Exception:
+        pass
     tmp = tempfile.mkdtemp(prefix='seedrepo-')
     out = []
     try:
